@@ -196,7 +196,8 @@ func runStress(cs StressCase) StressResult {
 		}
 	}
 	classes := map[int]bool{}
-	var completed int64
+	var completed, waitersSeen int64
+	defer func() { res.WaitersSeen = atomic.LoadInt64(&waitersSeen) }()
 	var wg sync.WaitGroup
 	for w := 0; w < cs.Workers; w++ {
 		wg.Add(1)
@@ -236,7 +237,7 @@ func runStress(cs StressCase) StressResult {
 				ops = append(ops, porcupine.Operation{ClientId: w, Input: semIn{true}, Call: c0, Output: 0, Return: c1})
 				mu.Unlock()
 				if p.Waiters() > 0 {
-					atomic.AddInt64(&res.WaitersSeen, 1)
+					atomic.AddInt64(&waitersSeen, 1)
 				}
 				if cs.HoldUs > 0 {
 					time.Sleep(time.Duration(rng.Intn(cs.HoldUs+1)) * time.Microsecond)
@@ -274,13 +275,13 @@ loop:
 		if n != last {
 			last, lastTick, wall = n, tick, time.Now()
 		}
-		if tick-lastTick >= 8 {
+		if tick-lastTick >= 25 {
 			mu.Lock()
 			out := len(outstanding)
 			mu.Unlock()
 			if out < cs.Capacity && p.Waiters() > 0 {
 				res.Viol = append(res.Viol, Viol{"C04", "pool-waiter-parked-with-free-capacity:" + cs.Kind,
-					fmt.Sprintf("%s pool: no get/back completed during 8 pool heartbeat ticks, %d of %d events outstanding, %d readers parked", cs.Kind, out, cs.Capacity, p.Waiters()), cs})
+					fmt.Sprintf("%s pool: no get/back completed during 25 pool heartbeat ticks, %d of %d events outstanding, %d readers parked", cs.Kind, out, cs.Capacity, p.Waiters()), cs})
 			} else {
 				res.Inconcl = "stress stalled without a parked waiter"
 			}
